@@ -12,6 +12,9 @@ sys.path.insert(0, os.path.join(os.path.dirname(os.path.dirname(os.path.abspath(
 import common  # noqa: E402
 
 
+TZ_BY_SEED = ["NST3:30NDT,M3.2.0,M11.1.0", "IST-5:30", "EST5EDT,M3.2.0,M11.1.0", "<+1245>-12:45", "UTC", "PST8PDT,M3.2.0,M11.1.0"]
+
+
 def main():
     ap = argparse.ArgumentParser()
     ap.add_argument("prop")
@@ -23,8 +26,15 @@ def main():
         tier = "quick"
     seed = int(os.environ.get("VERIF_SEED", "0") or 0)
     prop = a.prop.upper()
+    # Every property speaks about UTC names and times; none may depend on the time zone of the
+    # process.  All checks therefore run in a zone with a non-integer offset and daylight saving
+    # (override with DRF_TZ); individual checks rotate further zones where names are rendered.
+    import time
+    os.environ["TZ"] = os.environ.get("DRF_TZ") or TZ_BY_SEED[seed % len(TZ_BY_SEED)]
+    time.tzset()
     res = common.Result(prop, tier, seed)
     res.rng = random.Random(seed * 1000003 + int(prop[1:]))
+    res.extra["process_tz"] = os.environ["TZ"]
     try:
         mod = importlib.import_module("props.%s" % prop.lower())
     except ImportError as e:
